@@ -133,11 +133,12 @@ def rand_label_name(rng, total):
     return b'.'.join(out)
 
 
-def hostile_mx(rng, qid, first, qtype, nrec=None, namelen=None, announce=None):
+def hostile_mx(rng, qid, first, qtype, nrec=None, namelen=None, announce=None, mode=None):
     srv = qtype == T_SRV
     if nrec is None:
         nrec = rng.choice([0, 1, 2, 3, 16, 17, 18, 100, 248, 249, 250, 251, 300])
-    mode = rng.randrange(6)
+    if mode is None:
+        mode = rng.randrange(6)
     rrs = []
     for i in range(nrec):
         if mode == 0:
@@ -159,9 +160,9 @@ def hostile_mx(rng, qid, first, qtype, nrec=None, namelen=None, announce=None):
         rd = mx_rdata(pref, nm, srv=srv)
         rl = None
         x = rng.random()
-        if x < 0.05:
+        if x < 0.05 and namelen is None:
             rl = rng.choice([0, 1, 2, len(rd) - 1, len(rd) + 1, 0xffff])
-        rrs.append(rr(qtype if rng.random() > 0.02 else rng.choice(TYPES), rd, rdlen=rl))
+        rrs.append(rr(qtype if (rng.random() > 0.02 or namelen is not None) else rng.choice(TYPES), rd, rdlen=rl))
     m = reply(qid, first, qtype, rrs, an=announce)
     return m[:65535]
 
